@@ -485,6 +485,7 @@ func runDraw(ops []string, r *runner, out *caseOut) {
 			o.cell(x, y).touched = true
 			o.cell(x+1, y).touched = true // a wide rune that is replaced also repaints the column it covered
 			flush()
+		case f[0] == "variant" && len(f) == 2: // model variant marker for the Lean driver: nothing to do on the screen
 		case f[0] == "fill" && len(f) == 3:
 			s.Fill(rune(atoi(f[1])), parseStyleF(f[2]).toStyle())
 			touchAll()
